@@ -404,6 +404,89 @@ def job_norm(seed):
     return obs
 
 
+def job_nonbonded(seed):
+    """Imc::Worker::DoNonbonded, two-body branch: which beads are searched, with which cutoff, into which histogram, and whether bonded exclusions apply (--include-intra)"""
+    rvc.reset()
+    fns = rvc.functions(rvc.ast(REL, 'Imc::Worker::DoNonbonded'))
+    if 'DoNonbonded' not in fns:
+        raise core.Undecided('front end: Imc::Worker::DoNonbonded not found')
+    fn = fns['DoNonbonded'][0]
+    hdr = open(os.path.join(core.REPO, 'csg/include/votca/csg/nblist.h')).read()
+    dflt = re.findall(r'Generate\s*\([^;{]*?bool\s+do_exclusions\s*=\s*(true|false)\s*\)', hdr)
+    if not dflt or len(set(dflt)) != 1:
+        raise core.Undecided('front end: default of NBList::Generate(..., do_exclusions) not found in nblist.h')
+    default_excl = dflt[0] == 'true'
+    F = 'Imc::Worker::DoNonbonded'
+    obs = []
+    for same in (True, False):
+        for intra in (False, True):
+            ev = []
+            class PropM:
+                def __init__(s_, v=None): s_.v = v
+                def call(s_, name, args):
+                    if name == 'get': return PropM({'name': 'I', 'type1': 'A', 'type2': 'A' if same else 'B'}[args[0]])
+                    if name == 'value': return s_.v
+                    if name == 'exists': return False
+                    raise rvc.Unsupported('Property::' + name)
+            class BL:
+                def __init__(s_): s_.t = None
+                def call(s_, name, args):
+                    if name == 'Generate':
+                        s_.t = args[1]; ev.append(('beadlist', args[1])); return None
+                    raise rvc.Unsupported('BeadList::' + name)
+            class NB(list):
+                def setCutoff(s_, c): ev.append(('cutoff', D.lift(c).v))
+                def SetMatchFunction(s_, h, f=None): ev.append(('match', h))
+                def Generate(s_, *a):
+                    lists = [x.t for x in a if isinstance(x, BL)]
+                    flags = [x for x in a if isinstance(x, bool)]
+                    ev.append(('search', tuple(lists), flags[0] if flags else default_excl))
+            hist, histf = Hist('h', 2, ev), Hist('hf', 2, ev)
+            mx_, st_ = sp.Symbol('imax', positive=True), sp.Symbol('istep', positive=True)
+            inter = {'index_': 0, 'threebody_': False, 'force_': False, 'max_': D(mx_), 'step_': D(st_), 'cut_': D(0)}
+            imc = {'nonbonded_': [PropM()], 'interactions_': StrMap({'I': inter}), 'options_': PropM(), 'include_intra_': intra}
+            this = {'__class__': 'Worker', 'imc_': imc, 'current_hists_': [hist], 'current_hists_force_': [histf]}
+            def construct(ex_, n, ty, args):
+                if re.search(r'unique_ptr<(votca::csg::)?NBList>', ty + n['type'].get('desugaredQualType', '')):
+                    return NB()
+                return NotImplemented
+            def decl(ex_, vd, ty, inner):
+                if ty.endswith('BeadList'):
+                    return BL()
+                if 'IMCNBSearchHandler' in ty:
+                    arg = rvc.rval(ex_.expr(inner[0]['inner'][0])) if inner and inner[0].get('inner') else None
+                    return {'__class__': 'IMCNBSearchHandler', 'hist': arg}
+                if 'unique_ptr' in ty and (not inner or not inner[0].get('inner')):
+                    return None
+                return NotImplemented
+            cb = {'construct': construct, 'decl': decl, 'new': lambda *a: 'NEW', 'SetMatchFunction': lambda nb, h, *a: nb.SetMatchFunction(h)}
+            ex = Exec({'top': 'TOP'}, cb, {}, this)
+            try:
+                ex.stmt(rvc.body_of(fn))
+            except Ret:
+                pass
+            t = '%s.%s' % ('same' if same else 'cross', 'intra' if intra else 'excl')
+            search = [e for e in ev if e[0] == 'search']
+            exp_lists = ('A',) if same else ('A', 'B')
+            ok = len(search) == 1 and search[0][1] == exp_lists
+            o = Ob('C04.nonbonded/%s/lists' % t, F, 'one pair search: over the beads of type1 alone for equal types, over (type1, type2) otherwise', 'RVC', 'symbolic execution', core.PROVED if ok else core.REFUTED, 0, str(ev)[:300], witness=None if ok else {'events': str(ev)[:300]})
+            obs.append(o)
+            ok = len(search) == 1 and search[0][2] == (not intra)
+            o = Ob('C04.nonbonded/%s/exclusions' % t, F, 'bonded exclusions are applied exactly when --include-intra is off (default of an omitted argument read from nblist.h: %s)' % default_excl, 'RVC', 'symbolic execution',
+                   core.PROVED if ok else core.REFUTED, 0, str(search), witness=None if ok else {'include_intra': intra, 'types': 'equal' if same else 'different', 'search': str(search)})
+            obs.append(o)
+            cut = [e for e in ev if e[0] == 'cutoff']
+            ok = len(cut) == 1 and sp.expand(cut[0][1] - mx_ - st_) == 0
+            obs.append(Ob('C04.nonbonded/%s/cutoff' % t, F, 'search cutoff == max + step of the interaction (every pair that can fall into the last bin is found)', 'RVC', 'symbolic execution', core.PROVED if ok else core.REFUTED, 0, str(cut), witness=None if ok else {}))
+            order = [e[0] for e in ev if e[0] in ('clear', 'search')]
+            m = [e for e in ev if e[0] == 'match']
+            ok = order[:1] == ['clear'] and ('clear', 'h') in ev and order.index('search') > ev.index(('clear', 'h')) - 10 and len(m) == 1 and isinstance(m[0][1], dict) and m[0][1].get('hist') is hist
+            obs.append(Ob('C04.nonbonded/%s/histogram' % t, F, 'the histogram of this interaction is cleared before the search and is the one the pair handler fills', 'RVC', 'symbolic execution', core.PROVED if ok else core.REFUTED, 0, str(ev)[:300], witness=None if ok else {}))
+    for o in obs:
+        o['functions'] = [{'name': F, 'file': REL, 'ast_nodes': rvc.node_count(fn)}]
+    return obs
+
+
 def collect(obs):
     seen = set(f['name'] for f in META['functions'])
     for o in obs:
@@ -414,7 +497,7 @@ def collect(obs):
 
 
 def run(tier, seed, only=None):
-    jobs = [(job_merge, (seed,)), (job_writedist, (seed,)), (job_groups, (seed,)), (job_norm, (seed,))]
+    jobs = [(job_merge, (seed,)), (job_writedist, (seed,)), (job_groups, (seed,)), (job_norm, (seed,)), (job_nonbonded, (seed,))]
     if only:
         jobs = [j for j in jobs if re.search(only, j[0].__name__)]
     obs = core.pmap(jobs)
